@@ -96,12 +96,28 @@ class C18(Spec):
                 a = rng.randint(-10, 40)
                 iv.append((a, a + rng.randint(0, 12)))
             yield {'kind': 'smooth', 'iv': iv}
+        yield from self.reuse_cases(rng, tier)
         for _ in range(nrand):
             n = rng.randint(13, 200)
             p = rng.random()
             bits = ''.join('1' if rng.random() < p else '0' for _ in range(n))
             yield {'kind': 'epochs', 'bits': bits}
             yield {'kind': 'debounce', 'd': rng.randint(0, 8), 'iv': ref_runs([b == '1' for b in bits])}
+
+    def reuse_cases(self, rng, tier):
+        """The caller keeps ONE run table and debounces it with several limits in turn (e.g. a sweep): every answer
+        must be the one for the original runs (nothing a call does may leak into the next through the table)."""
+        nb = 8 if tier == 'quick' else 11
+        for n in range(2, nb + 1):
+            for bits in itertools.product('01', repeat=n):
+                runs = ref_runs([b == '1' for b in bits])
+                if len(runs) >= 2:
+                    yield {'kind': 'debounce-reuse', 'iv': runs, 'ds': [1, 2, 1, 3, 0]}
+        for _ in range(300 if tier == 'quick' else 5000):
+            n = rng.randint(10, 80)
+            p = rng.random()
+            runs = ref_runs([rng.random() < p for _ in range(n)])
+            yield {'kind': 'debounce-reuse', 'iv': runs, 'ds': [rng.randint(0, 5) for _ in range(rng.randint(2, 4))]}
 
     @staticmethod
     def _pairs(iv):
@@ -112,6 +128,8 @@ class C18(Spec):
             return [f"epochs {c['bits']}"]
         if c['kind'] == 'smooth':
             return [f"smooth {self._pairs(c['iv'])}"]
+        if c['kind'] == 'debounce-reuse':
+            return [f"debounce {d} {self._pairs(c['iv'])}" for d in c['ds']]
         return [f"debounce {c['d']} {self._pairs(c['iv'])}"]
 
     def impl_lines(self, c):
@@ -121,6 +139,14 @@ class C18(Spec):
                 x = np.array([b == '1' for b in c['bits'].replace('-', '')], dtype=bool)
                 return [fmt_pairs(util.epochs(x))]
             arr = np.array(c['iv'], dtype=np.int64).reshape(-1, 2)
+            if c['kind'] == 'debounce-reuse':
+                out = []
+                for d in c['ds']:
+                    try:
+                        out.append(fmt_pairs(util.debounce_epochs(arr, d)))      # the SAME table object every time
+                    except (IndexError, ValueError) as e:
+                        out.append(f'err {type(e).__name__}')
+                return out
             if c['kind'] == 'smooth':
                 return [fmt_pairs(util.smooth_epochs(arr))]
             return [fmt_pairs(util.debounce_epochs(arr, c['d']))]
@@ -128,6 +154,16 @@ class C18(Spec):
             return [f'err {type(e).__name__}']
 
     def oracle(self, c, out):
+        if c['kind'] == 'debounce-reuse':
+            runs = [tuple(p) for p in c['iv']]
+            for j, (d, line) in enumerate(zip(c['ds'], out)):
+                if not line.startswith('ok '):
+                    return f'raised: {line}'
+                got, want = parse_pairs(line[3:]), ref_debounce(runs, d)
+                if got != want:
+                    return (f'debounce_epochs(table, {d}) as call {j + 1} of limits {c["ds"]} on the same table {runs} '
+                            f'returned {got}, the run structure is {want}')
+            return None
         if not out[0].startswith('ok '):
             return f'raised: {out[0]}'
         got = parse_pairs(out[0][3:])
@@ -145,6 +181,8 @@ class C18(Spec):
         return None
 
     def nontrivial(self, c, out):
+        if c['kind'] == 'debounce-reuse':
+            return True
         if c['kind'] == 'epochs':
             return '0' in c['bits'] and '1' in c['bits']
         return len(c['iv']) >= 2
